@@ -138,6 +138,7 @@ type SA struct {
 	Spy   [2]*security.IKESAKey // spied views of the same objects
 	Log   atomic.Pointer[spyLog]
 	OK    bool
+	twins int
 }
 
 type Dgram struct {
